@@ -341,6 +341,8 @@ Proof.
   case_bool_decide as E2; simpl; [|done].
   case_bool_decide as E3; simpl; [|done].
   destruct (existsb _ (elements (dom (c_g SC)))) eqn:E4; [done|].
+  destruct (existsb _ (elements (bb_in d))) eqn:E5; [done|].
+  destruct (existsb _ (elements (bb_out d))) eqn:E6; [done|].
   intros [= <-]. cbn [c_name c_g c_bbs]. rewrite registry_fold.
   split; [|split; [done|split; [done|split; [|done]]]].
   - intros b Hb. pose proof (existsb_false _ _ E1 b) as H. simpl in H.
